@@ -439,7 +439,48 @@ func probeFuncs() []transFunc {
 	return out
 }
 
+// ---- round 4: zapcore/level.go.  The Level behind a pointer receiver is the field "lvl"; the level constants are READ
+// from the source (iota expressions); bytes.ToLower, fmt.Sprintf / Errorf are parameters / free constructors.
+var levelConsts = map[string]string{"DebugLevel": "src", "InfoLevel": "src", "WarnLevel": "src", "ErrorLevel": "src", "DPanicLevel": "src",
+	"PanicLevel": "src", "FatalLevel": "src", "_minLevel": "src", "_maxLevel": "src", "InvalidLevel": "src"}
+var levelSelf = &fieldSpec{"lvl", "i8"}
+
+func levelFunc(recv, name string, extra map[string]shim) transFunc {
+	f := transFunc{file: "zapcore/level.go", recv: recv, name: name, lean: name, consts: levelConsts,
+		types: map[string]string{"Level": "i8", "LevelEnabler": "LevelEnabler"},
+		calls: merge(map[string]shim{
+			"fmt.Sprintf":   {kind: "ext", f: "fmt.Sprintf", res: []string{"string"}},
+			"fmt.Errorf":    {kind: "ext", f: "fmt.Errorf", res: []string{"error"}},
+			"bytes.ToLower": {kind: "ext", f: "bytes.ToLower", res: []string{"bytes"}},
+		}, extra)}
+	if recv != "" {
+		f.recvAs = levelSelf
+	}
+	return f
+}
+
+// level.UnmarshalText(…) on an addressable local Level: the callee's pointee field is "lvl", its nil flag "isnil"
+var levelUnmarshalOnLocal = map[string]shim{"i8.UnmarshalText": {kind: "funaddr", f: "UnmarshalText", res: []string{"error"},
+	flds: []string{"lvl"}, with: []string{"isnil"}}}
+
 var transSpecs = []transSpec{
+	{table: "TransLevel", funcs: []transFunc{
+		levelFunc("Level", "unmarshalText", nil),
+		levelFunc("Level", "String", nil),
+		levelFunc("Level", "CapitalString", nil),
+		func() transFunc {
+			f := levelFunc("Level", "UnmarshalText", map[string]shim{"recv.unmarshalText": {kind: "fun", f: "unmarshalText", res: []string{"bool"}}})
+			f.recvNil = "isnil"
+			f.consts = merge1(levelConsts, map[string]string{"errUnmarshalNilLevel": "val:error|.list [.int 0]"})
+			return f
+		}(),
+		levelFunc("", "ParseLevel", levelUnmarshalOnLocal),
+		levelFunc("", "LevelOf", map[string]shim{
+			".(leveledEnabler)":    {kind: "extstmt", f: "assert.leveledEnabler", res: []string{"LeveledEnabler", "bool"}},
+			"LeveledEnabler.Level": {kind: "ext", f: "LeveledEnabler.Level", res: []string{"i8"}},
+			"LevelEnabler.Enabled": {kind: "ext", f: "LevelEnabler.Enabled", res: []string{"bool"}},
+		}),
+	}},
 	// the CTR self-test: probe functions of the harness, translated like any whitelisted function
 	{table: "TransProbe", funcs: probeFuncs()},
 	{table: "TransSampler", funcs: []transFunc{
